@@ -30,8 +30,8 @@ import (
 
 // Baseline is what is recorded about the tree the rules were validated on.
 type Baseline struct {
-	Funcs  map[string]BaseFunc        `json:"funcs"`  // key: FuncDeclKey
-	Fields map[string][][2]string     `json:"fields"` // key: pkgpath.Type -> [name, type]
+	Funcs  map[string]BaseFunc    `json:"funcs"`  // key: FuncDeclKey
+	Fields map[string][][2]string `json:"fields"` // key: pkgpath.Type -> [name, type]
 }
 
 // BaseFunc records the identity-free content of a function.
@@ -138,7 +138,9 @@ func GoneBodies(base *Baseline, present map[string]bool) map[string]map[string]b
 }
 
 // AlphaHashOf exposes alphaHash.
-func AlphaHashOf(info *types.Info, pkg *types.Package, d *ast.FuncDecl) string { return alphaHash(info, pkg, d) }
+func AlphaHashOf(info *types.Info, pkg *types.Package, d *ast.FuncDecl) string {
+	return alphaHash(info, pkg, d)
+}
 
 // BodyHashOf is bodyHash for other files of the package.
 func BodyHashOf(fset *token.FileSet, d *ast.FuncDecl) string { return bodyHash(fset, d) }
